@@ -1024,7 +1024,9 @@ Lemma both_only_rerequested ns progs s k key : R ns progs s -> abs (ct (gl s)) k
   exists q q' st st', q <> q' /\ nth_error (heap (ct (gl s))) q = Some (Cell k key st) /\
                       nth_error (heap (ct (gl s))) q' = Some (Cell k key st').
 Proof.
-  intros HR Hab. pose proof (I_c _ _ (R_inv _ _ _ HR)) as HC. unfold abs in Hab. inversion Hab as [[H1 H2]].
+  intros HR Hab. pose proof (I_c _ _ (R_inv _ _ _ HR)) as HC. unfold abs in Hab.
+  assert (H1 : ahas key (pend (ct (gl s)) k) = true) by congruence.
+  assert (H2 : ahas key (used (ct (gl s)) k) = true) by congruence.
   apply ahas_true in H1. apply ahas_true in H2. destruct H1 as [q H1], H2 as [q' H2].
   pose proof (C_pend _ HC _ _ _ H1) as E1. destruct (C_used _ HC _ _ _ H2) as [v E2].
   exists q, q', Unset, (SetV v). repeat split; auto. intros ->. congruence.
@@ -1068,7 +1070,7 @@ Proof.
   pose proof (I_held _ _ HI a Hm) as Hh. unfold pcof in Hh.
   destruct (nth_error (thr s) a) as [l|] eqn:Hl; [|discriminate].
   destruct l as [pr p sl]. cbn in Hh. destruct p; try discriminate.
-  eexists _, _. split; [reflexivity|]. unfold tstep. cbn [at_]. reflexivity.
+  eexists _, _. split; [exact Hl|]. unfold tstep. cbn [at_]. reflexivity.
 Qed.
 
 (* a method can be disabled only while it waits for promiseLock, and then the owner can move *)
